@@ -39,6 +39,11 @@ func NewSeedSequencer(idx Index, src ...Seed) *SeedSequencer {
 // Plan returns a new possible plan, representing an ordered list of
 // segments that can be used to re-assemble the requested file
 func (r *SeedSequencer) Plan() (plan Plan) {
+	// Nothing to plan for the index of an empty file. Next() always returns a
+	// segment of at least one chunk, don't call it without any chunks.
+	if len(r.index.Chunks) == 0 {
+		return plan
+	}
 	for {
 		seed, segment, source, done := r.Next()
 		plan = append(plan, SeedSegmentCandidate{seed, source, segment})
